@@ -384,7 +384,10 @@ def run(case):
         if kind == "uniaxial":
             # (usex0: the job is evaluated with a separate top-level container x0 that carries the boundaries -- the composite
             #  pattern -- instead of the body's own container)
-            for (hist, split), usex0 in itertools.product((([0.15, 0.3, 0.15, 0.0, -0.1], None), ([0.2, 0.0, 0.2], 2), ([-0.1, 0.0, 0.0, 0.25], 1)), (False, True)):
+            # (the last two: small probing increments about a pre-stretch, and a history whose total amplitude is 3e-9 -- the same
+            #  specimen in a unit system with a large length unit)
+            for (hist, split), usex0 in itertools.product((([0.15, 0.3, 0.15, 0.0, -0.1], None), ([0.2, 0.0, 0.2], 2), ([-0.1, 0.0, 0.0, 0.25], 1),
+                                                           ([0.5, 0.500001, 0.500002, 0.500001], None), ([1e-9, 2e-9, 3e-9], None)), (False, True)):
                 mesh, region, twin = build(fam, "distorted", seed, n=n)
                 Fcls = fem.Field if d == 3 else fem.FieldPlaneStrain
                 field = fem.FieldContainer([Fcls(region, dim=d)])
